@@ -57,11 +57,16 @@ DgramCodecs == {"socks_udp", "rpfm"}
 Pairs == (StreamIn \X StreamOut) \cup (DgramCodecs \X DgramCodecs)
 Cases == {<<i, o, d>> \in InCodecs \X OutCodecs \X Dests : <<i, o>> \in Pairs /\ CanCarry(i, d)}
 
+(* how the destination must look on the wire where a third party (not this proxy's own reader) has to read it:   *)
+(* an HTTP CONNECT authority carries an IPv6 literal in brackets (RFC 3986 3.2.2) - without them "addr:port" is     *)
+(* itself a different, port-less IPv6 address                                                                      *)
+WireRule(o, d) == IF o = "http" /\ d.kind = "v6" THEN "bracketed-v6" ELSE "none"
 VARIABLE c
 Init == c \in Cases
 Next == UNCHANGED c
 Emit == PrintT(<<"CASE", ToJson([inc |-> c[1], outc |-> c[2], d |-> c[3],
-                                 must_refuse |-> ~(Holdable(c[3]) /\ Representable(c[2], c[3]))])>>)
+                                 must_refuse |-> ~(Holdable(c[3]) /\ Representable(c[2], c[3])),
+                                 wire_rule |-> WireRule(c[2], c[3])])>>)
 (* sanity of the table: every outgoing protocol can represent at least the plain destinations of every kind it supports *)
 TableSane == (c[3].byte = "plain" /\ c[3].len \in {1, 2, 63} /\ c[3].kind = "domain") => Representable(c[2], c[3])
 =============================================================================
